@@ -94,6 +94,28 @@ use distributor_channels::{
     DistributionReceiver, DistributionSender, channels, partition_aware_channels,
 };
 
+/// Verification hooks (only with `--cfg datafusion_verif`): access to the private exchange
+/// channels and to the division-free remainder used by hash repartitioning.
+#[cfg(datafusion_verif)]
+pub mod verif_hooks {
+    pub use super::distributor_channels::{
+        DistributionReceiver, DistributionSender, RecvFuture, SendError, SendFuture,
+        channels, partition_aware_channels,
+    };
+
+    /// `hash mod divisor` computed with the same precomputed constants and the same quotient
+    /// routine as the hash partitioner (`divisor` must be non-zero).
+    pub fn strength_reduced_remainder(hash: u64, divisor: u64) -> u64 {
+        match super::StrengthReducedU64::new(divisor) {
+            super::StrengthReducedU64::PowerOfTwo { mask } => hash & mask,
+            super::StrengthReducedU64::Reciprocal {
+                divisor,
+                reciprocal,
+            } => hash - super::StrengthReducedU64::quotient(hash, reciprocal) * divisor,
+        }
+    }
+}
+
 /// A batch in the repartition queue - either in memory or spilled to disk.
 ///
 /// This enum represents the two states a batch can be in during repartitioning.
